@@ -27,7 +27,12 @@ Record blist_wf (c : vcfg) (l : blist) : Prop := mkBlistWf {
   bw_type : type_valid c (bl_type l) = true;
   bw_align : Bits.pow2 (bl_minalign l);
   bw_gran : Bits.pow2 (bl_gran l);
-  bw_next : 0 <= bl_next l
+  bw_next : 0 <= bl_next l;
+  (* every block was created with the list's granularity and keeps it *)
+  bw_g : Forall (fun b => meta_g (bk_meta b) = bl_gran l) (bl_blocks l);
+  (* the list's granularity is the device's bufferImageGranularity (Vam.eff_granularity), or 1 for a pool
+     created with IgnoreBufferImageGranularity *)
+  bw_gran_src : bl_gran l = 1 \/ bl_gran l = (if c_gran c <? 1 then 1 else c_gran c)
 }.
 
 (* slot s holds a, allocated *)
@@ -89,7 +94,9 @@ Record VamInvU (c : vcfg) (v : vam) (unreg dang : list Z) : Prop := mkVamInv {
   vi_dang_tags : forall s lr l b rg, In s dang -> get_blist v lr = Some l -> In b (bl_blocks l) ->
       In rg (meta_live (bk_meta b)) -> rg_tag rg <> Some s;
   vi_next_nonneg : 0 <= m_next (v_m v);
-  vi_dev_pos : Forall (fun d => 0 < dm_size d) (m_mems (v_m v))
+  vi_dev_pos : Forall (fun d => 0 < dm_size d) (m_mems (v_m v));
+  (* the alignment recorded in a block allocation is a power of two *)
+  vi_align : forall s a, slot_is v s a -> a_kind a = 1 -> Bits.pow2 (a_align a)
 }.
 
 Definition VamInv (c : vcfg) (v : vam) : Prop := VamInvU c v [] [].
@@ -365,14 +372,14 @@ Qed.
 (* the blocks keep identity, memory, size and live regions (mapping state, free-list order, position may change) *)
 Definition block_same (b b' : block) : Prop :=
   bk_id b = bk_id b' /\ bk_mem b = bk_mem b' /\ meta_live (bk_meta b) = meta_live (bk_meta b') /\
-  meta_size (bk_meta b) = meta_size (bk_meta b').
+  meta_size (bk_meta b) = meta_size (bk_meta b') /\ meta_g (bk_meta b) = meta_g (bk_meta b').
 
 Definition blocks_equiv (bs bs' : list block) : Prop :=
   (forall b, In b bs -> exists b', In b' bs' /\ block_same b b') /\
   (forall b', In b' bs' -> exists b, In b bs /\ block_same b b').
 
 Lemma blocks_equiv_refl bs : blocks_equiv bs bs.
-Proof. split; intros b Hb; exists b; unfold block_same; auto. Qed.
+Proof. split; intros b Hb; exists b; unfold block_same; auto 6. Qed.
 
 Lemma VamInvU_set_equiv c v U X lr l0 l' :
   VamInvU c v U X -> get_blist v lr = Some l0 ->
@@ -395,7 +402,7 @@ Proof.
   - rewrite set_blist_m. auto.
   - rewrite set_blist_m. auto.
   - rewrite set_blist_m. intros lr1 l1 b H Hb. destruct (Hcases _ _ H0 H) as [(-> & ->)|(Hne & Hg)].
-    + destruct (Hbw _ Hb) as (b0 & Hb0 & _ & Hm & _ & Hs). rewrite <- Hm, <- Hs, Hty. eauto.
+    + destruct (Hbw _ Hb) as (b0 & Hb0 & _ & Hm & _ & Hs & _). rewrite <- Hm, <- Hs, Hty. eauto.
     + eauto.
   - intros lr1 l1 b1 lr2 l2 b2 H1 Hb1 H2 Hb2 Hm.
     destruct (Hcases _ _ H0 H1) as [(-> & ->)|(Hne1 & Hg1)]; destruct (Hcases _ _ H0 H2) as [(-> & ->)|(Hne2 & Hg2)].
@@ -447,6 +454,7 @@ Proof.
     + eauto.
   - rewrite set_blist_m. auto.
   - rewrite set_blist_m. auto.
+  - intros s a Hs Hk. apply (proj1 (slot_is_set_blist _ _ _ _ _)) in Hs. eauto.
 Qed.
 
 (* all fields of the invariant under fixed names *)
@@ -462,4 +470,4 @@ Ltac inv_fields HI :=
   pose proof (vi_dedlists _ _ _ _ HI) as I_dd; pose proof (vi_dedlists_nodup _ _ _ _ HI) as I_dnd;
   pose proof (vi_unreg _ _ _ _ HI) as I_ur; pose proof (vi_dang _ _ _ _ HI) as I_dg;
   pose proof (vi_dang_tags _ _ _ _ HI) as I_dt2; pose proof (vi_next_nonneg _ _ _ _ HI) as I_nn;
-  pose proof (vi_dev_pos _ _ _ _ HI) as I_dp.
+  pose proof (vi_dev_pos _ _ _ _ HI) as I_dp; pose proof (vi_align _ _ _ _ HI) as I_al.
